@@ -107,6 +107,19 @@ func c05Oracle(p *Plan) *Verdict {
 		return v // another property's business (C01/C04)
 	}
 	rp := &rc.Backend.Resp
+	if b.Protocol == ProtoREST {
+		// a REST backend has no trailers to send: only its headers are expected at the client
+		rp = &RespPlan{Headers: rp.Headers, Err: rp.Err, ErrInHeaders: rp.ErrInHeaders, Msgs: rp.Msgs}
+	}
+	if rc.Client.Form == FormREST && len(rp.Trailers) > 0 {
+		// the property names a trailer position for Connect, gRPC and gRPC-Web clients only; a REST response has none
+		// (the transcoder drops trailers there), so only headers are judged for REST clients
+		v.probe("rest-client-trailers-not-judged")
+		if rp.Err != nil && rp.ErrInHeaders && len(rp.Msgs) == 0 && (b.Protocol == ProtoGRPC || b.Protocol == ProtoGRPCWeb) {
+			return v // trailers-only: headers and trailers are one block on the wire and cannot be told apart
+		}
+		rp = &RespPlan{Headers: rp.Headers, Err: rp.Err, ErrInHeaders: rp.ErrInHeaders, Msgs: rp.Msgs}
+	}
 	if o.TrailersOnly || (rp.Err != nil && rp.ErrInHeaders && len(rp.Msgs) == 0 && (b.Protocol == ProtoGRPC || b.Protocol == ProtoGRPCWeb)) {
 		// trailers-only: the protocol merges headers and trailers into one block, so only the union is defined
 		want := metaMultimap(append(append([][2]string{}, rp.Headers...), rp.Trailers...))
@@ -123,14 +136,14 @@ func c05Oracle(p *Plan) *Verdict {
 		v.probe("trailers-only")
 		return v
 	}
-	if d := diffMeta(metaMultimap(rc.Backend.Resp.Headers), o.Headers); d != "" {
+	if d := diffMeta(metaMultimap(rp.Headers), o.Headers); d != "" {
 		f := copyFacts(facts)
 		v.violate("response-headers", f, "response headers changed on the way to the client: %s", d)
 	}
-	if d := diffMeta(metaMultimap(rc.Backend.Resp.Trailers), o.Trailers); d != "" {
+	if d := diffMeta(metaMultimap(rp.Trailers), o.Trailers); d != "" {
 		v.violate("response-trailers", facts, "response trailers changed or are not where %s puts them: %s", rc.Client.Form, d)
 	}
-	if len(rc.Backend.Resp.Trailers) > 0 {
+	if len(rp.Trailers) > 0 {
 		v.probe("trailers-" + outcome)
 	}
 	// protocol status keys must not leak into what the client sees as metadata
